@@ -256,7 +256,7 @@ func c06R1(c *Ctx) {
 			// and the rewritten chunk is what is returned
 			retOK := false
 			eachInstr(det, func(in ssa.Instruction) {
-				if r, ok := in.(*ssa.Return); ok && len(r.Results) == 2 && !isNilConst(r.Results[1]) {
+				if r, ok := in.(*ssa.Return); ok && len(r.Results) == 2 && !isNilConst(retVal(r, 1)) {
 					for _, l := range origins(r.Results[0], originOpts{}) {
 						if l.V == ci.Value() {
 							retOK = true
@@ -281,7 +281,7 @@ func c06R1(c *Ctx) {
 	// the relay-marked chunk (relay mode) — never the chunk as it came in
 	eachInstr(det, func(in ssa.Instruction) {
 		r, ok := in.(*ssa.Return)
-		if !ok || len(r.Results) != 2 || isNilConst(r.Results[1]) {
+		if !ok || len(r.Results) != 2 || isNilConst(retVal(r, 1)) {
 			return
 		}
 		n, good := 0, true
@@ -307,6 +307,9 @@ func c06R1(c *Ctx) {
 					return false
 				}
 				okAll := true
+				if idx < 0 {
+					idx = 0
+				}
 				eachInstr(g, func(x ssa.Instruction) {
 					if gr, isR := x.(*ssa.Return); isR && idx < len(gr.Results) && x.Block().Comment != "recover" {
 						if !marked(retVal(gr, idx), depth+1) {
@@ -388,6 +391,42 @@ func c06R2(c *Ctx) {
 			c.check(hit == nil, p.fn+"/one-start-per-detection", c.ipos(g), "one start per detection", "the handler can be started twice for one detection")
 		})
 		c.check(n == 1, p.fn+"/one-start-site", c.pos(f.Pos()), "exactly one start site", "the pump does not have exactly one start site")
+		// every chunk that is not already owned by a running session is shown to the detector: from the read, on the
+		// n > 0 side, the next read is not reachable without the detection except over an edge on which the chunk was
+		// claimed by the active transfer / accepted by the zmodem session (filter) or belongs to a handshake or transfer
+		// in progress (relay). A flag test in front of the detector ("nothing worth inspecting") hides triggers.
+		{
+			detI := dets[0].(ssa.Instruction)
+			nv := extractOf(read, 0)
+			claimed := func(from, to *ssa.BasicBlock) bool {
+				fs := edgeFactsTo(from, to)
+				if factZero(fs, isValue(nv)) {
+					return true // nothing was read
+				}
+				for _, fc := range fs {
+					op, x, y, ok := cmpFact(fc)
+					if ok && op == token.NEQ && isNilConst(y) {
+						if call, _ := callOf(x); call != nil && isAtomicOnField(call, "transfer", "Load") {
+							return true
+						}
+					}
+					if call, _ := callOf(fc.V); call != nil && fc.Pol && calleeID(&call.Call) == "(*trzsz.zmodemTransfer).handleServerOutput" {
+						return true
+					}
+					if e, isE := fc.V.(*ssa.Extract); isE && fc.Pol && e.Index == 1 {
+						if call, isC := e.Tuple.(*ssa.Call); isC && calleeID(&call.Call) == "(*trzsz.TrzszRelay).addHandshakeBuffer" {
+							return true
+						}
+					}
+					if ok && op == token.EQL && isConstIntV(c.constVal("kRelayTransferring"))(y) {
+						return true
+					}
+				}
+				return false
+			}
+			hitD, pathD := reachFromE(read.Block(), instrIndex(read)+1, func(x ssa.Instruction) bool { return x == ssa.Instruction(read) }, func(x ssa.Instruction) bool { return x == detI }, claimed)
+			c.check(hitD == nil, p.fn+"/every-free-chunk-detected", c.ipos(read), "every chunk not owned by a running session is shown to the trigger detector", "a chunk can go by without being shown to the trigger detector although no session owns it: a trigger in it starts nothing and trz / tsz hangs", c.pathStr(pathD)...)
+		}
 		// and the converse, universally: a detected trigger always starts the handler — from the detection, on the
 		// trigger != nil side, neither the next read nor the pump's end is reachable without the start
 		{
@@ -480,7 +519,7 @@ func c06R2(c *Ctx) {
 	nTrig := 0
 	eachInstr(det, func(in ssa.Instruction) {
 		r, ok := in.(*ssa.Return)
-		if !ok || len(r.Results) != 2 || isNilConst(r.Results[1]) {
+		if !ok || len(r.Results) != 2 || isNilConst(retVal(r, 1)) {
 			return
 		}
 		nTrig++
@@ -506,7 +545,7 @@ func c06R2(c *Ctx) {
 				for _, in := range i.Block().Succs[0].Instrs {
 					if ret, ok := in.(*ssa.Return); ok {
 						found = true
-						if !isNilConst(ret.Results[1]) {
+						if !isNilConst(retVal(ret, 1)) {
 							okNil = false
 						}
 					}
@@ -542,7 +581,7 @@ func c06R2(c *Ctx) {
 		}
 		var trigRet ssa.Instruction
 		eachInstr(det, func(in ssa.Instruction) {
-			if r, ok := in.(*ssa.Return); ok && len(r.Results) == 2 && !isNilConst(r.Results[1]) {
+			if r, ok := in.(*ssa.Return); ok && len(r.Results) == 2 && !isNilConst(retVal(r, 1)) {
 				trigRet = in
 			}
 		})
